@@ -255,3 +255,7 @@ pub use crate::solver::chordal::verif_hooks_cg as chordal_cg;
 /// the crate-private dense matrix module (`src/algebra/dense/**`) on plain data (needs `sdp`)
 #[cfg(feature = "sdp")]
 pub use crate::algebra::verif_hooks_dense as dense;
+
+/// cone-count accessors of `ChordalInfo` and the private helpers of `chordal/decomp/*` (needs `sdp`)
+#[cfg(feature = "sdp")]
+pub use crate::solver::chordal::verif_hooks_decomp as chordal_decomp;
